@@ -1,4 +1,7 @@
+#[cfg(not(jbonsai_verif))]
 use std::collections::HashMap;
+#[cfg(jbonsai_verif)]
+type HashMap<K, V> = std::collections::HashMap<K, V, crate::verif::SeededState>;
 
 use serde::{
     de::{MapAccess, Visitor},
@@ -17,7 +20,10 @@ impl<'de> Visitor<'de> for StrMapVisitor {
     where
         A: serde::de::MapAccess<'de>,
     {
+        #[cfg(not(jbonsai_verif))]
         let mut result = HashMap::new();
+        #[cfg(jbonsai_verif)]
+        let mut result = HashMap::default();
 
         while let Some((key, value)) = map.next_entry::<&str, &str>()? {
             if !key.ends_with(']') {
